@@ -81,19 +81,24 @@ impl Drop for VerifJobGuard {
 }
 
 fn worker(
+    first: BoxedDispatchable,
     receiver: Receiver<BoxedDispatchable>,
-    counter: Arc<AtomicUsize>,
+    guard: CounterGuard,
     timeout: Duration,
 ) -> impl FnOnce() {
     move || {
         #[cfg(compio_verif)]
-        let verif_pool = Arc::as_ptr(&counter) as u64;
+        let verif_pool = Arc::as_ptr(&guard.0) as u64;
+        // The slot was reserved by the dispatcher; the guard releases it when
+        // the thread ends (also when a job panics).
+        let _guard = guard;
         #[cfg(compio_verif)]
-        compio_log::verif::point("pool.w.inc", verif_pool, 0);
-        counter.fetch_add(1, Ordering::AcqRel);
-        let _guard = CounterGuard(counter);
+        let verif_job = VerifJobGuard(verif_pool);
         #[cfg(compio_verif)]
-        compio_log::verif::point("pool.w.recv", verif_pool, 0);
+        compio_log::verif::point("pool.w.run", verif_pool, 0);
+        first.run();
+        #[cfg(compio_verif)]
+        drop(verif_job);
         while let Ok(f) = receiver.recv_timeout(timeout) {
             #[cfg(compio_verif)]
             let _verif_job = VerifJobGuard(verif_pool);
@@ -147,22 +152,28 @@ impl AsyncifyPool {
                     );
                     if self.thread_limit == 0 {
                         panic!("the thread pool is needed but no worker thread is running");
-                    } else if self.counter.load(Ordering::Acquire) >= self.thread_limit {
+                    } else if self
+                        .counter
+                        .fetch_update(Ordering::AcqRel, Ordering::Acquire, |c| {
+                            (c < self.thread_limit).then_some(c + 1)
+                        })
+                        .is_err()
+                    {
                         // SAFETY: we can ensure the type
                         Err(DispatchError(*unsafe {
                             Box::from_raw(Box::into_raw(f).cast())
                         }))
                     } else {
+                        // The slot is reserved. If spawning fails the guard gives it back.
+                        let guard = CounterGuard(self.counter.clone());
                         #[cfg(compio_verif)]
                         compio_log::verif::point("pool.d.spawn", Arc::as_ptr(&self.counter) as u64, 0);
                         std::thread::spawn(worker(
+                            f,
                             self.receiver.clone(),
-                            self.counter.clone(),
+                            guard,
                             self.recv_timeout,
                         ));
-                        #[cfg(compio_verif)]
-                        compio_log::verif::point("pool.d.send", Arc::as_ptr(&self.counter) as u64, 0);
-                        self.sender.send(f).expect("the channel should not be full");
                         Ok(())
                     }
                 }
